@@ -170,6 +170,16 @@ type PeerConfig struct {
 }
 
 func (p PeerConfig) validate(opts peerOptions) error {
+	// https://tools.ietf.org/html/rfc7607
+	//
+	// If a BGP speaker receives zero as the peer AS in an OPEN message, it
+	// MUST abort the connection and send a NOTIFICATION with Error Code
+	// "OPEN Message Error" and subcode "Bad Peer AS" (see Section 6 of
+	// [RFC4271]).  A router MUST NOT initiate a connection claiming to be
+	// AS 0.
+	if p.LocalAS == 0 || p.RemoteAS == 0 {
+		return errors.New("AS must be > 0")
+	}
 	if !opts.localAddress.IsValid() && p.RemoteAddress.IsValid() {
 		return nil
 	}
@@ -182,16 +192,6 @@ func (p PeerConfig) validate(opts peerOptions) error {
 		if !opts.localAddress.Is6() || !p.RemoteAddress.Is6() {
 			return errors.New("invalid peer address pair")
 		}
-	}
-	// https://tools.ietf.org/html/rfc7607
-	//
-	// If a BGP speaker receives zero as the peer AS in an OPEN message, it
-	// MUST abort the connection and send a NOTIFICATION with Error Code
-	// "OPEN Message Error" and subcode "Bad Peer AS" (see Section 6 of
-	// [RFC4271]).  A router MUST NOT initiate a connection claiming to be
-	// AS 0.
-	if p.LocalAS == 0 || p.RemoteAS == 0 {
-		return errors.New("AS must be > 0")
 	}
 	return nil
 }
